@@ -76,7 +76,7 @@ class C02(C01):
                 ref = iout.get("%s.m0.%s" % (p[0], p[2]))
                 if ref is not None and not hexlist_equal_mod_nan(ref, lanes[0]):
                     fails.append(("C02:gradient-value-lane", "%s lane 0 = %s differs from plain value %s" % (k, lanes[0], ref)))
-                if p[2] != "member":
+                if p[2] not in ("member", "evt", "evn"):     # the table's own gradient and the evaluator's (templated / generic build)
                     continue
                 for j in range(len(lanes)):
                     kv = [1 if d == j - 1 else 0 for d in range(t.ndim)]
